@@ -351,6 +351,7 @@ pub struct HistoryOut {
     pub inconclusive: Option<String>,
     pub close_result: Option<String>,
     pub horizon_regressions: Vec<String>,
+    pub final_scan_ok: bool,
 }
 
 fn enc_list(ids: &[u64]) -> Vec<u8> {
@@ -458,6 +459,8 @@ pub fn run_history(cfg: &Cfg, dir: &Path, p: &Params, seed: u64) -> HistoryOut {
     let outc = outstanding.clone();
     let donec = done.clone();
     let quiescec = quiesce.clone();
+    let scan_ok = Arc::new(AtomicBool::new(false));
+    let scan_okc = scan_ok.clone();
     let main = std::thread::spawn(move || {
         rt.block_on(async move {
             let tree = match cfgc.open(&dirc) {
@@ -746,7 +749,14 @@ pub fn run_history(cfg: &Cfg, dir: &Path, p: &Params, seed: u64) -> HistoryOut {
             if !pc.close_midway {
                 if let Ok(tx) = tree.begin_with_mode(Mode::ReadOnly) {
                     if let Ok(mut it) = tx.range(&b"\x00"[..], &b"\xff\xff\xff\xff"[..]) {
-                        let mut ok = it.seek_first().unwrap_or(false);
+                        scan_okc.store(true, Ordering::SeqCst);
+                        let mut ok = match it.seek_first() {
+                            Ok(b) => b,
+                            Err(_) => {
+                                scan_okc.store(false, Ordering::SeqCst);
+                                false
+                            }
+                        };
                         while ok {
                             let k = it.key();
                             let uk = k.user_key().to_vec();
@@ -754,10 +764,19 @@ pub fn run_history(cfg: &Cfg, dir: &Path, p: &Params, seed: u64) -> HistoryOut {
                                 let id: u64 = String::from_utf8_lossy(&uk[MARK_PREFIX.len()..]).parse().unwrap_or(0);
                                 marker_seqs.insert(id, k.seq_num());
                             }
-                            if let Ok(v) = it.value() {
-                                final_state.insert(uk, v);
+                            match it.value() {
+                                Ok(v) => {
+                                    final_state.insert(uk, v);
+                                }
+                                Err(_) => scan_okc.store(false, Ordering::SeqCst),
                             }
-                            ok = it.next().unwrap_or(false);
+                            ok = match it.next() {
+                                Ok(b) => b,
+                                Err(_) => {
+                                    scan_okc.store(false, Ordering::SeqCst);
+                                    false
+                                }
+                            };
                         }
                     }
                 }
@@ -816,6 +835,7 @@ pub fn run_history(cfg: &Cfg, dir: &Path, p: &Params, seed: u64) -> HistoryOut {
         inconclusive,
         close_result,
         horizon_regressions: regress.lock().unwrap().clone(),
+        final_scan_ok: scan_ok.load(Ordering::SeqCst),
     };
     let _ = std::fs::remove_dir_all(dir);
     out
@@ -893,6 +913,11 @@ pub fn check(out: &HistoryOut, p: &Params) -> Verdict {
     }
     for r in &out.horizon_regressions {
         problems.push(("horizon".into(), r.clone()));
+    }
+    if out.inconclusive.is_some() || out.stuck.is_some() || (!closed_midway && !out.final_scan_ok) {
+        // the history did not run to its end (watchdog) or the final scan that gives the
+        // commit order did not complete: nothing can be said about order and visibility
+        return Verdict { problems, stats: st };
     }
     if closed_midway {
         // only termination, panics and error hygiene are checked for these histories
